@@ -429,11 +429,7 @@ func (g *gen) c07Case(p *plan, v pathVar, idx int, qv, bv string, ex c07Extra) (
 			return nil, nil // the request type has too few fields for this dimension
 		}
 		if g.n%2 == 0 {
-			g.rng.Shuffle(len(extras), func(i, j int) {
-				if extras[i].k != extras[j].k {
-					extras[i], extras[j] = extras[j], extras[i]
-				}
-			})
+			extras = shuffleKeepKeyOrder(g.rng, extras)
 		}
 		c.Extra = "many-keys"
 	}
@@ -508,7 +504,7 @@ func (g *gen) c07Case(p *plan, v pathVar, idx int, qv, bv string, ex c07Extra) (
 				bodyMsg = val.Message().Interface()
 			}
 		}
-		if ex.siblings == 0 && ex.many == 0 {
+		if ex.siblings == 0 && ex.many == 0 && ex.keys == 0 {
 			// bodies of varying sizes: a filler in some other string field
 			prefix := p.bodyPrefix()
 			fs := bodyMsg.ProtoReflect().Descriptor().Fields()
